@@ -31,6 +31,15 @@ NOTES = {
  'C13-5': 'first missed: lambda range variables with a namespace added to AstGen and the text corpus',
  'C15-4': 'first missed: pre-joined Core statements whose FROM clause is anchored at another table added as bases',
  'C20-5': 'first missed: probes whose AST could depend on the hash seed (in-lists with repeats, many named parameters) added to the cross-process digests',
+ 'C02-6': 'first caught only through the tie: the FIRST thing each semantic check now translates are float / string / Boolean spellings of the values the integer filters use (state carried between calls by value-keyed caches), and integer div / mod by literals against every small quotient were added',
+ 'C03-6': 'first missed: or-chains of three and four eq terms on one field with a null test at every position (and right-nested) added',
+ 'C07-6': 'first caught only through the tie: contents that look like template placeholders ($1 $2 {0} %s \\1 :param_1 ?) and calls holding two string literals added',
+ 'C08-6': 'first caught only through the tie: literals nested inside two functions (length(trim({s})), concat(trim({s}), ..)) added to the templates',
+ 'C10-6': 'first missed: every identifier-like string constant of the parser\'s own source (re-harvested on every run) is tried as a call with 0-3 arguments, a one-element trailing-comma list, named parameters, under a namespace, and as a field',
+ 'C15-5': 'first missed: null tests / or / not as OPERANDS of a comparison with true / false added to the filters; the judge removes the wrappers with Spec.unwrapBoolCmp (Kleene identities) before elaborating',
+ 'C16-6': 'first missed: built-ins called with named parameters through the ORM visitors added to the non-mutation run',
+ 'C18-6': 'first missed: every single-kind allowed set (a class passed as such, not as a tuple) added',
+ 'C20-6': 'first missed: building an AliasRewriter (incl. with aliases that raise) on caller-supplied instances is now part of the history before the probes',
  'C20-4': 'first missed: accumulation histories (40-120 repetitions of one input, nine kinds that leave a parenthesis open) and extreme single inputs added',
 }
 
@@ -41,12 +50,12 @@ def main():
     n = len(res); caught = sum(1 for rc, v in res.values() if rc == '1'); inp = sum(1 for rc, v in res.values() if rc == '1' and 'no-failing' not in v)
     out = ["### 0.5 Seeded changes and which checks catch them", "",
     "Every seeded change below compiles, leaves the pinned suite at 648 passed / 10 xfailed / 4 errors, and was confirmed in a scratch worktree (its own `demo.py` passes on HEAD and fails with the patch;",
-    "`harness/confirm_seed.sh`). They were written in five rounds by fresh sub-agents that saw only the property text, a scratch worktree of /repo and (from round 2 on) one-line summaries of the",
+    "`harness/confirm_seed.sh`). They were written in six rounds by fresh sub-agents that saw only the property text, a scratch worktree of /repo and (from round 2 on) one-line summaries of the",
     "earlier seeds for the same property so as to differ in mechanism - nothing from /verif. `harness/seed_matrix.sh` applies each in an isolated scratch worktree, runs the quick check of its",
     f"property in a scratch copy of /verif and writes `seeded/RESULTS.tsv`: {caught} of {n} are reported, {inp} with a failing input. Where a change was first missed (or caught only through a broken",
     "tie), the generator or the judge was strengthened (last column, regenerated by `harness/mkseedtable.py`) - the properties and the pass criteria were not touched. First-time detection per round",
     "(own check, before any strengthening): rounds 1-2 (47 seeds): the first misses are the ones marked in the last column (C03-3, C08-3, C12-2, C12-3, C12-4); round 3 (11 seeds): 7 with a failing input,",
-    "1 through the tie only, 3 missed; round 4 (20 seeds): 8 with a failing input, 3 through the tie only, 9 missed; round 5 (20 seeds): 10 with a failing input, 2 through the tie only, 7 missed, 1 crashed the translator - rounds 3 to 5 were asked to avoid every mechanism used before, and each miss named a",
+    "1 through the tie only, 3 missed; round 4 (20 seeds): 8 with a failing input, 3 through the tie only, 9 missed; round 5 (20 seeds): 10 with a failing input, 2 through the tie only, 7 missed, 1 crashed the translator; round 6 (20 seeds): 11 with a failing input, 3 through the tie only, 6 missed - rounds 3 to 6 were asked to avoid every mechanism used before, and each miss named a",
     "blind spot of a GENERATOR or of a judge's scope (literal spellings, type-confusable contents, sequences on one instance, accumulation, an over-broad refusal rule, a schema feature), never of a theorem.", "",
     "| seed | file(s) | what it changes | caught by | note |", "|---|---|---|---|---|"]
     for d in sorted(glob.glob('/verif/seeded/*/')):
